@@ -337,7 +337,8 @@ fn measure_sized(sc: &OpSc, m: i64, big: usize, iset: &mut InstructionSet) -> Re
     }
     push_subject(&mut st, &sc.instr, mi as i32, big);
     let statebytes = statecode::statecode(&st).len() as u64;
-    simenv::trace_note(&sc.instr);
+    // (the magnitude goes into the trace: if this step kills the process the supervisor knows where)
+    simenv::trace_note_at(&sc.instr, if m == NONFINITE { 0 } else { m as u64 });
     let cache = iset.cache();
     let before = alloc::snapshot();
     let t0 = std::time::Instant::now();
@@ -441,8 +442,16 @@ pub fn execute_op(sc: &OpSc, iset: &mut InstructionSet) -> OpResult {
                     vs.push(Violation {
                         property: "C15".into(),
                         class: "oracle:operand-cost".into(),
-                        site: if what.starts_with("milliseconds") { format!("{}: one step {}", sc.instr, class) } else { format!("{}: the cost of one step {}", sc.instr, class) },
-                        detail: format!("{} with operands of magnitude {}: {} {} (bound {} = 64 KiB + 64 x {} state bytes; {} at the previous magnitude)", sc.instr, if m == NONFINITE { "non-finite/extreme".to_string() } else { m.to_string() }, got, what, lim, c.statebytes, before),
+                        // the site names the instruction and the kind of excess, not the growth rate: a rate read
+                        // off two magnitudes changes with every allocation detail and is not what identifies the finding
+                        site: if what.starts_with("milliseconds") {
+                            format!("{}: one step {}", sc.instr, class)
+                        } else if class.starts_with("is large") {
+                            format!("{}: the cost of one step {}", sc.instr, class)
+                        } else {
+                            format!("{}: the cost of one step grows with the operand magnitude", sc.instr)
+                        },
+                        detail: format!("{} with operands of magnitude {}: {} {} (bound {} = 64 KiB + 64 x {} state bytes; {} at the previous magnitude: {})", sc.instr, if m == NONFINITE { "non-finite/extreme".to_string() } else { m.to_string() }, got, what, lim, c.statebytes, before, class),
                         at_event: m as u64,
                     });
                     stats.outcome = "excess".into();
